@@ -399,5 +399,22 @@ def resample (sig : List α) (step : Arg α) (order : Nat) (zero : α) (n : Nat)
 /-- inputs with fewer than `rint(threshold)` samples (today: RuntimeError from `Stream.take`, D1) -/
 def resShort (sig : List α) (order : Nat) : Bool := sig.length < order / 2 + 1
 
+/-! ### noise generators: only their duration is modelled (lazy_synth.py:411-415, 447-451) -/
+
+/-- `lazy_misc.rint(x)` (step 1): `divmod`, a guard value `±0.1`, round half away from zero -/
+def rint (x : α) : Int :=
+  let dv : Int := Floor.floor x
+  let md : α := x - (dv : α)
+  let err : α := half / (1 + 1 + 1 + 1 + 1)
+  let result : α := if 0 < x then (dv : α) + err else if x < 0 then (dv : α) - err else (dv : α)
+  let up : Bool := if x < 0 then decide (1 < (1 + 1) * md) else decide (¬ ((1 + 1) * md < 1))
+  pyInt (if up then result + 1 else result)
+
+/-- number of samples of `white_noise(dur)` / `gauss_noise(dur)` among the first `n` reads -/
+def noiseLen (dur : Option α) (n : Nat) : Nat :=
+  match dur with
+  | none => n
+  | some d => min n (rint d).toNat
+
 end Arith
 end ALV.C19
